@@ -774,11 +774,19 @@ def observe_doc(j, ctx=None):
     except Exception as ex:
         return {**o, "raised": type(ex).__name__}
     ok = True
+    n_out, n_in = {}, {}
     for (s, so), (d, do) in j["edges"]:
         if so is None:                                # written without an offset: must be a state-order link
             ok = ok and any(x.idx == d for x in h.outgoing_order_links(Node(s)))
+            n_out[(s, d)] = n_out.get((s, d), 0) + 1
         if do is None:
             ok = ok and any(x.idx == s for x in h.incoming_order_links(Node(d)))
+            n_in[(s, d)] = n_in.get((s, d), 0) + 1
+    # ... EVERY such edge: n edges s -> d written without an offset are (at least) n order links s -> d
+    for (s, d), n in n_out.items():
+        ok = ok and sum(1 for x in h.outgoing_order_links(Node(s)) if x.idx == d) >= n
+    for (s, d), n in n_in.items():
+        ok = ok and sum(1 for x in h.incoming_order_links(Node(d)) if x.idx == s) >= n
     ok = ok and len(h) == len(j["nodes"])
     for i, n in enumerate(j["nodes"]):                # node kinds and names through the public API
         ok = ok and out["nodes"][i]["op"] == n["op"] and out["nodes"][i].get("name") == n.get("name")
@@ -1273,8 +1281,12 @@ def _jdfop(rng, kind, callee=None):
     raise AssertionError(kind)
 
 
-def gen_jorderdoc(rng):
-    """A wired hand-written document rich in state-order edges: in every dataflow container the children are listed
+def gen_jorderdoc(rng, multi=0.0):
+    """(`multi` > 0, seeded round 5: every edge -- value, static, order -- is, with that probability, written one or two
+    MORE times; the extra copies of an order edge spell each end afresh (null / the order port's explicit offset), so
+    that the same ordered pair of nodes is joined by several order edges of the same or of different spelling.  With
+    multi = 0 not one extra draw is made: the stream of the older callers is unchanged.)
+    A wired hand-written document rich in state-order edges: in every dataflow container the children are listed
     Input, Output, then a few dataflow operations of random (mostly asymmetric) arities; value edges between ports of
     equal type, static edges from the declared function / a constant, and order edges along chains Input -> .. -> Output
     plus random extra ones (always from an earlier to a later sibling), each END written without an offset (75 %, the
@@ -1346,10 +1358,23 @@ def gen_jorderdoc(rng):
                     order.add((seq[a], seq[b]))
         for a, b in sorted(order):
             edges.append([end(a, 1), end(b, 0)])
+            if multi and rng.random() < multi:
+                for _ in range(rng.choice([1, 1, 2])):
+                    edges.append([end(a, 1), end(b, 0)])
+                order_dup.append((a, b))
         for n, vi, vo in nested:
             fill(n, vi, vo, depth - 1)
 
+    order_dup = []
     fill(top, top_i, top_o, 1)
+    if multi:
+        if not order_dup:                           # at least one pair of nodes joined by two order edges
+            a, b = top + 1, top + 2                 # Input, Output of the outermost container
+            edges.extend([[end(a, 1), end(b, 0)], [end(a, 1), end(b, 0)]])
+        for e in [e for e in edges if e[0][1] is not None and e[1][1] is not None and
+                  e[0][1] != arity.get(e[0][0], (None, None))[1] and e[1][1] != arity.get(e[1][0], (None, None))[0]
+                  if rng.random() < multi / 2]:   # value and static edges
+            edges.extend(_copy.deepcopy(e) for _ in range(rng.choice([1, 1, 2])))
     rng.shuffle(edges)
     doc = {"version": "live", "nodes": [T.shuffle_keys(rng, x) for x in nodes], "edges": edges}
     r = rng.random()
